@@ -306,9 +306,11 @@ class Rig(BoboReceiverSubscriber, BoboDeciderSubscriber, BoboProducerSubscriber,
             else:
                 raise ValueError(op)
         except Exception as e:  # an exception of the engine is an observable, not a harness failure
-            if kind == 'add' or e.__class__.__name__ not in ('BoboProducerError',):
+            if kind not in ('update', 'step'):
                 raise
-            err, ret = f'{e.__class__.__name__} {e}', '-'
+            msg = str(e).replace('\n', ' ')[:80] if e.__class__.__name__ == 'BoboProducerError' else ''
+            err, ret = f'{e.__class__.__name__} {msg}'.strip(), '-'
+            line = 'update' if kind == 'update' else f'step {op[1]}'
         for c, h, u in self.script:
             line += f' dec {len(c)} {len(h)} {len(u)}'
             for r in c + h + u:
@@ -467,7 +469,8 @@ def run_case(case, want_lines=True):
     misconfigured = any(p['where'] != 'B' for p in case['phens'])
     if not misconfigured:
         if raised:
-            viol.append(('engine-raised', 'engine.update() raised on a well-formed setup'))
+            viol.append(('engine-raised', 'an update() raised on a well-formed setup: '
+                         + next(o.split(' | err ')[1].split(' | ')[0] for o in outs if ' | err ' in o and ' | err - ' not in o)))
         viol += final_oracle(rig)
     stats = {'completed': sum(len(c) for c, _, _, _ in rig.notifs), 'halted': sum(len(h) for _, h, _, _ in rig.notifs),
              'complex': len(rig.complexes), 'exec': len(rig.exec_log), 'action': len(rig.actions),
@@ -593,11 +596,11 @@ def all_cases(ctx: Ctx):
     for c in fixed_cases():
         yield c
     rng = ctx.rng
-    per_cfg = 24 if ctx.thorough else 3
+    per_cfg = 150 if ctx.thorough else 12
     for cfg in ALL_CFGS:
         for _ in range(per_cfg):
             yield gen_case(rng, cfg, 'hand')
-    for _ in range(1500 if ctx.thorough else 120):
+    for _ in range(6000 if ctx.thorough else 500):
         yield gen_case(rng, [0, 0, 0, 0, 1], 'simple')
 
 
@@ -697,8 +700,8 @@ SPEC = PropSpec(
     run=run,
     search=search,
     rule='corpus + hand-written cases (times0 witnesses, hierarchical feedback, single-task stepping, mismatched phenomena lists), then '
-         'for each of the 3^4*2 = 162 engine configurations (times_* in {0,1,2}, early_stop on/off) 3 (quick) / 24 (thorough) seeded '
-         'scenarios built by hand, plus 120 / 1500 built through BoboSetupSimple: 1-3 phenomena x 1-2 real patterns of 1-3 blocks '
+         'for each of the 3^4*2 = 162 engine configurations (times_* in {0,1,2}, early_stop on/off) 12 (quick) / 150 (thorough) seeded '
+         'scenarios built by hand, plus 500 / 6000 built through BoboSetupSimple: 1-3 phenomena x 1-2 real patterns of 1-3 blocks '
          '(followed_by / next / loop / optional, int predicates, predicates on complex and action events of earlier phenomena, '
          'halt conditions, singleton), datagen none/cnt/grp/const, action none/t/f/h, validator all/int/intstr, 3-14 operations '
          '(add int / None / str / ready-made simple event; engine update; single task update), then engine updates until every queue '
